@@ -658,12 +658,12 @@ pub fn run(run: &Run) {
 	run.exhaustive.store(true, std::sync::atomic::Ordering::SeqCst);
 	run.note("exhaustive stages enumerate bases x unary-op grid completely (depth 2 and 3); random stages are sampled");
 	// stage 2: random deeper trees
-	let n = run.tier.pick(40_000, 1_500_000);
+	let n = run.tier.pick(160_000, 1_500_000);
 	run.explore("random-depth4", n, 8..=60, |src| {
 		let op = gen(src, 4, false);
 		check(&op)
 	});
-	let n = run.tier.pick(2000, 40_000);
+	let n = run.tier.pick(8_000, 80_000);
 	run.explore("random-threshold", n, 8..=40, |src| {
 		let op = gen(src, 3, true);
 		check(&op)
